@@ -197,6 +197,8 @@ def iter_sources():
 
 
 def extra(rep, tier, seed, budget):
+    from bounded import integrate as _integ
+    _integ.system_histories(rep, tier, seed, ['C08_foreign_refs'])
     from pyvc import cli
     from pyvc.cli import write_replay
     facts = []
@@ -287,6 +289,9 @@ def replay_prune_third_party():
 
 
 def replay_file(data):
+    from bounded import integrate as _integ
+    if isinstance(data.get('case'), dict) and ('events' in data['case'] or 'fault' in data['case']):
+        return _integ.replay(data)
     if data.get('clause') == 'clone_mirror':
         from bounded import clone_mirror
         return clone_mirror.replay(data['case'])
